@@ -727,7 +727,7 @@ class C17(Prop):
             "(b) depth 1: 57 infix + 9 prefix operators x 18 operand kinds (x both source forms) x 13 contexts; "
             "depth 2 (quick: every prefix operator over every depth-1 expression of 6 operand kinds, every infix "
             "operator over every pair of (infix | prefix) sub-expressions on fixed leaves; thorough: additionally all "
-            "one-sided nestings with 6 inner x 18 outer operand kinds, 3 contexts); non-trivial when the source "
+            "one-sided nestings with 6 inner x 18 outer operand kinds in the plain clause context, two-sided and prefix blocks in 3 contexts); non-trivial when the source "
             "parses and the shape is judged.  (c) literals x connectives &,|,~ (depth 2 / 3) x clause / AD forms.")
     assumptions = [
         "round trip judged on what the parser built from the source (fixpoint parse(print(parse(s))) == parse(s))",
@@ -763,7 +763,9 @@ class C17(Prop):
                 res.append(["rt2", ["U", op], [0, 1, 2]])
         else:
             for blk in G.depth2_blocks():
-                res.append(["rt2", blk, [0, 1, 2]])
+                # one-sided nestings (L/R blocks, 18 outer operand kinds) in the plain clause context only;
+                # two-sided and prefix blocks in all three contexts
+                res.append(["rt2", blk, [0] if blk[0] in "LR" else [0, 1, 2]])
         for i in range(16):
             res.append(["ctor", i, 16])
         for fam, alphabet, kmax in (("tok", G.TOKENS, TOK_MAX[tier]), ("chr", G.PRINTABLE, CHR_MAX[tier]),
